@@ -18,6 +18,7 @@ open CashewsVerif CashewsVerif.Decor
 def accepts (c : Cond) (b : Beh) : Bool :=
   match c.eval b.kind b.dur, b.kind with
   | .bool true, .exc _ _ => false
+  | .bool true, .eobj _ _ => false      -- `not isinstance(result, Exception)`: a returned exception object is not stored
   | .bool true, _ => true
   | .theExc, _ => true
   | _, _ => false
